@@ -60,8 +60,15 @@ Record facts := {
   (* Unlock skips cached accounts that have no encrypted private key *)
   f_unlock_skips_keyless : bool;
   (* keyToManaged does not queue addresses of accounts without a private key *)
-  f_keyless_not_queued : bool
+  f_keyless_not_queued : bool;
+  (* ChangePassphrase refuses an empty new private passphrase (as Create does) *)
+  f_change_rejects_empty : bool
 }.
+
+(* The id of the empty passphrase.  Go: append(salt[:], passphrase...) returns
+   the salt's own backing array when the passphrase is empty, so the
+   zero.Bytes(saltedPassphrase) that follows zeroes the manager's salt. *)
+Definition empty_pass : N := 0.
 
 (* ------------------------------------------------------------------ data *)
 
@@ -173,7 +180,8 @@ Record keys := {
   k_master : bool;                 (* masterKeyPriv.Key live *)
   k_cpriv : bool;                  (* cryptoKeyPriv live *)
   k_cscript : bool;                (* cryptoKeyScript live: never set by the code (S5) *)
-  k_hashed : option N              (* hashedPrivPassphrase = H(salt, this passphrase); None = zeroed *)
+  k_salt : N;                      (* privPassphraseSalt: 0 = all zero, otherwise the id of a random salt *)
+  k_hashed : option (N * N)        (* hashedPrivPassphrase = H(salt, passphrase); None = zeroed *)
 }.
 
 Record mem := {
@@ -258,7 +266,7 @@ Definition lock_aobj (F : facts) (o : aobj) : aobj :=
 Definition lock_keys (k : keys) : keys :=
   {| k_locked := true; k_watch := k_watch k; k_pub := k_pub k; k_priv := k_priv k;
      k_cpriv_enc := k_cpriv_enc k; k_cscript_enc := k_cscript_enc k;
-     k_master := false; k_cpriv := false; k_cscript := false; k_hashed := None |}.
+     k_master := false; k_cpriv := false; k_cscript := false; k_salt := k_salt k; k_hashed := None |}.
 
 Definition lock_mem (F : facts) (m : mem) : mem :=
   {| mk := lock_keys (mk m);
@@ -368,10 +376,20 @@ Definition apply_qent (m : mem) (q : qent) : mem :=
   | QDetached _ _ => m
   end.
 
+(* zero.Bytes(saltedPassphrase) after append(salt[:], passphrase...) *)
+Definition salt_after (salt p : N) : N := if p =? empty_pass then 0 else salt.
+
+Definition with_salt (k : keys) (salt : N) : keys :=
+  {| k_locked := k_locked k; k_watch := k_watch k; k_pub := k_pub k; k_priv := k_priv k;
+     k_cpriv_enc := k_cpriv_enc k; k_cscript_enc := k_cscript_enc k;
+     k_master := k_master k; k_cpriv := k_cpriv k; k_cscript := k_cscript k;
+     k_salt := salt; k_hashed := k_hashed k |}.
+
 Definition unlocked_keys (k : keys) (p : N) : keys :=
   {| k_locked := false; k_watch := k_watch k; k_pub := k_pub k; k_priv := k_priv k;
      k_cpriv_enc := k_cpriv_enc k; k_cscript_enc := k_cscript_enc k;
-     k_master := true; k_cpriv := true; k_cscript := k_cscript k; k_hashed := Some p |}.
+     k_master := true; k_cpriv := true; k_cscript := k_cscript k;
+     k_salt := salt_after (k_salt k) p; k_hashed := Some (k_salt k, p) |}.
 
 Definition do_unlock (F : facts) (p : N) (s : state) : state * rc :=
   let m := sm s in
@@ -379,9 +397,11 @@ Definition do_unlock (F : facts) (p : N) (s : state) : state * rc :=
   if k_watch k then (s, RWatchOnly)
   else if negb (k_locked k) then
     (* already unlocked: compare the salted hash; a mismatch LOCKS the manager *)
+    let m1 := mem_keys m (with_salt k (salt_after (k_salt k) p)) in
     match k_hashed k with
-    | Some h => if h =? p then (s, ROk) else (with_mem s (lock_mem F m), RWrongPass)
-    | None => (with_mem s (lock_mem F m), RWrongPass)
+    | Some (hs, hp) => if (hs =? k_salt k) && (hp =? p) then (with_mem s m1, ROk)
+                       else (with_mem s (lock_mem F m1), RWrongPass)
+    | None => (with_mem s (lock_mem F m1), RWrongPass)
     end
   else
     match k_priv k with
@@ -404,10 +424,11 @@ Definition do_unlock (F : facts) (p : N) (s : state) : state * rc :=
     end.
 
 (* --- ChangePassphrase --- *)
-Definition do_change_priv (old new : N) (s : state) : state * rc :=
+Definition do_change_priv (F : facts) (old new : N) (s : state) : state * rc :=
   let m := sm s in
   let k := mk m in
   if k_watch k then (s, RWatchOnly)
+  else if f_change_rejects_empty F && (new =? empty_pass) then (s, ROther)     (* ErrEmptyPassphrase *)
   else match k_priv k with
   | None => (s, RPanic)
   | Some (pw, g) =>
@@ -417,15 +438,19 @@ Definition do_change_priv (old new : N) (s : state) : state * rc :=
       if negb (g1 =? g) || negb (g2 =? g) then (s, RCrypto)
       else
         let g' := next_gen s in
+        let salt' := g' + 1 in                              (* a fresh random salt *)
         let k' := {| k_locked := k_locked k; k_watch := k_watch k; k_pub := k_pub k;
                      k_priv := Some (new, g'); k_cpriv_enc := Some g'; k_cscript_enc := Some g';
                      k_master := negb (k_locked k);         (* locked: newMasterKey.Zero() *)
                      k_cpriv := k_cpriv k; k_cscript := k_cscript k;
-                     k_hashed := if k_locked k then None else Some new |} in
+                     (* unlocked: the hash is taken, then the local salt is zeroed if it
+                        was aliased, then copied into the manager *)
+                     k_salt := if k_locked k then salt' else salt_after salt' new;
+                     k_hashed := if k_locked k then None else Some (salt', new) |} in
         let d := sd s in
         let dk' := {| d_watch := d_watch (dk d); d_pub := d_pub (dk d); d_cpub := d_cpub (dk d);
                       d_priv := Some (new, g'); d_cpriv := Some g'; d_cscript := Some g' |} in
-        ({| sd := disk_keys d dk'; sm := mem_keys m k'; next_gen := g' + 1 |}, ROk)
+        ({| sd := disk_keys d dk'; sm := mem_keys m k'; next_gen := g' + 2 |}, ROk)
     | _, _ => (s, RCrypto)
     end
   end.
@@ -440,7 +465,7 @@ Definition do_change_pub (old new : N) (s : state) : state * rc :=
     let k' := {| k_locked := k_locked k; k_watch := k_watch k; k_pub := (new, g');
                  k_priv := k_priv k; k_cpriv_enc := k_cpriv_enc k; k_cscript_enc := k_cscript_enc k;
                  k_master := k_master k; k_cpriv := k_cpriv k; k_cscript := k_cscript k;
-                 k_hashed := k_hashed k |} in
+                 k_salt := k_salt k; k_hashed := k_hashed k |} in
     let d := sd s in
     let dk' := {| d_watch := d_watch (dk d); d_pub := (new, g'); d_cpub := g';
                   d_priv := d_priv (dk d); d_cpriv := d_cpriv (dk d); d_cscript := d_cscript (dk d) |} in
@@ -456,8 +481,11 @@ Definition do_open (pubpass : N) (s : state) : state * rc :=
     let k := {| k_locked := true; k_watch := d_watch d; k_pub := d_pub d;
                 k_priv := if d_watch d then None else d_priv d;
                 k_cpriv_enc := d_cpriv d; k_cscript_enc := d_cscript d;
-                k_master := false; k_cpriv := false; k_cscript := false; k_hashed := None |} in
-    (with_mem s {| mk := k; m_accts := []; m_addrs := []; m_cache := []; m_queue := [] |}, ROk).
+                k_master := false; k_cpriv := false; k_cscript := false;
+                k_salt := next_gen s;                        (* loadManager draws a fresh salt *)
+                k_hashed := None |} in
+    ({| sd := sd s; sm := {| mk := k; m_accts := []; m_addrs := []; m_cache := []; m_queue := [] |};
+        next_gen := next_gen s + 1 |}, ROk).
 
 (* --- ConvertToWatchingOnly --- *)
 Definition convert_drow (r : drow) : drow :=
@@ -482,7 +510,7 @@ Definition do_convert (F : facts) (s : state) : state * rc :=
     let k' := {| k_locked := k_locked k; k_watch := true; k_pub := k_pub k; k_priv := None;
                  k_cpriv_enc := None; k_cscript_enc := None;
                  k_master := false; k_cpriv := false; k_cscript := false;   (* the three pointers are set to nil *)
-                 k_hashed := k_hashed k |} in
+                 k_salt := k_salt k; k_hashed := k_hashed k |} in
     let m' := {| mk := k'; m_accts := avmap convert_ainfo (m_accts m0);
                  m_addrs := avmap convert_aobj (m_addrs m0);
                  m_cache := m_cache m0; m_queue := m_queue m0 |} in
@@ -656,7 +684,7 @@ Definition step (F : facts) (s : state) (o : op) : state * rc :=
   | OpOpen p => do_open p s
   | OpUnlock p => do_unlock F p s
   | OpLock => do_lock F s
-  | OpChangePriv old new => do_change_priv old new s
+  | OpChangePriv old new => do_change_priv F old new s
   | OpChangePub old new => do_change_pub old new s
   | OpNewAccount sc => do_new_account sc s
   | OpNewWatchAccount sc => do_new_watch_account sc s
@@ -698,9 +726,10 @@ Definition init (nsc : nat) (pubpass privpass : N) : state :=
               d_last := [] |};
      sm := {| mk := {| k_locked := true; k_watch := false; k_pub := (pubpass, 0);
                        k_priv := Some (privpass, 1); k_cpriv_enc := Some 1; k_cscript_enc := Some 1;
-                       k_master := false; k_cpriv := false; k_cscript := false; k_hashed := None |};
+                       k_master := false; k_cpriv := false; k_cscript := false;
+                       k_salt := 2; k_hashed := None |};
               m_accts := []; m_addrs := []; m_cache := []; m_queue := [] |};
-     next_gen := 2 |}.
+     next_gen := 3 |}.
 
 (* ------------------------------------------------------------------ clear-text slots *)
 
